@@ -215,6 +215,10 @@ where
 
     // Keep on running forever until we receive the instruction to stop.
     while keep_running {
+        #[cfg(clock_bound_verif)]
+        if crate::verif_hooks::point("writer:recv") {
+            return;
+        }
         match ctx.mbox.recv() {
             Ok(Message::ClockErrorBoundData((tracking, phc_error_bound, as_of))) => {
                 // TODO use phc_error_bound here
@@ -243,6 +247,10 @@ where
 /// Entry point to this thread.
 pub fn run(ctx: Context, max_drift_ppb: u32) {
     info!("Starting shared memory writer thread");
+    #[cfg(clock_bound_verif)]
+    if crate::verif_hooks::point("writer:start") {
+        return;
+    }
     // Create a writer to update the clock error bound shared memory segment
     let writer = match ShmWriter::new(Path::new(CLOCKBOUND_SHM_DEFAULT_PATH)) {
         Ok(writer) => {
@@ -258,9 +266,44 @@ pub fn run(ctx: Context, max_drift_ppb: u32) {
         }
     };
 
+    #[cfg(clock_bound_verif)]
+    if crate::verif_hooks::point("writer:opened") {
+        return;
+    }
     // Pack the writer into the updater structure.
     let updater = ShmUpdater::new(writer, max_drift_ppb);
     process_messages(ctx, updater)
+}
+
+/// Wrappers exposing this module's private items to an external verification harness.
+#[cfg(clock_bound_verif)]
+pub mod verif {
+    use super::*;
+
+    pub fn extract_bound(tracking: Tracking) -> (i64, ChronyClockStatus) {
+        extract_bound_from_tracking(tracking)
+    }
+
+    pub struct Updater<W: ShmWrite>(ShmUpdater<W>);
+
+    impl<W: ShmWrite> Updater<W> {
+        pub fn new(writer: W, max_drift_ppb: u32) -> Self {
+            Updater(ShmUpdater::new(writer, max_drift_ppb))
+        }
+
+        pub fn process_clock_update(&mut self, tracking: Tracking, phc: i64, as_of: libc::timespec) {
+            self.0.process_clock_update(tracking, phc, as_of)
+        }
+
+        pub fn process_missing_clock_update(&mut self, within_grace_period: bool) {
+            self.0.process_missing_clock_update(within_grace_period)
+        }
+    }
+
+    /// Run the real message loop of the writer thread over an arbitrary `ShmWrite` sink.
+    pub fn run_process_messages<W: ShmWrite>(ctx: Context, writer: W, max_drift_ppb: u32) {
+        process_messages(ctx, ShmUpdater::new(writer, max_drift_ppb))
+    }
 }
 
 #[cfg(test)]
